@@ -91,11 +91,9 @@ def check(run, replay=None):
             if not cases or not tables:
                 raise Infra("%sGen printed %d cases and %d tables" % (MOD[pid], len(cases), len(tables)))
             # one line per wrapped expression: nothing may be lost or garbled on the way
-            m = re.search(r"Finished computing initial states: (\d+) distinct", r.out)
             mids = len(r.json_prints("mid"))
-            if not m or len(cases) + mids != r.distinct - int(m.group(1)):
-                raise Infra("%sGen: %d cases + %d intermediate lines parsed, %d distinct states, initial states %s"
-                            % (MOD[pid], len(cases), mids, r.distinct, m and m.group(1)))
+            if len(cases) + mids != r.distinct:
+                raise Infra("%sGen: %d cases + %d intermediate lines parsed, %d distinct states" % (MOD[pid], len(cases), mids, r.distinct))
             run.add_mc(MOD[pid] + "Gen", r, c)
             replay_cases(run, binp, d, "g%d" % gi, tables, cases, c)
             run.notes["trees_replayed"] = run.notes.get("trees_replayed", 0) + len(cases)
